@@ -213,6 +213,8 @@ def _run_plan(tasks, streams, plan, obs, tag):
             total_delivered = sum(s.total_ops for s in delivered[t])
             for r in recs:
                 obs.check(r["unit"] == f"{ss[0].total_ops_unit}/s", "unit", f"{tag}: unit {r['unit']!r} for ops unit {ss[0].total_ops_unit!r}")
+                if not obs.check(isinstance(r["value"], (int, float)) and not isinstance(r["value"], bool), "not-a-number", f"{tag}: task{idx} throughput value {r['value']!r}"):
+                    continue
                 obs.check(r["value"] >= 0, "negative", f"{tag}: negative throughput {r['value']}")
                 if t in last_type and ss[0].throughput is None:
                     # runner-supplied values carry the type of their own sample (pass-through), calculated ones must be monotone
